@@ -257,7 +257,7 @@ def run_one(choices, params):
 
 
 def prepare(tier, seed):
-    return 40000 if tier == "quick" else 3000000
+    return 40000 if tier == "quick" else 1200000     # (a run costs about three times what it did before the encoder was traced and a serving thread joined the senders)
 
 
 def params_for(i, tier, seed):
